@@ -86,6 +86,16 @@ def run(ctx):
             continue
         n7 += 1
         rep.add('R18.7', (o.module, o.qualname), o.construct, o.status, o.message, o.lineno, o.detail)
+    # R18.9: a later pass served from the chunk files yields the complete SORTED sequence: it merges the files with the key
+    # function and direction the chunks were sorted with (C05 R5.2)
+    from . import c05 as _c05
+    _sub5 = Report('C05', ctx.tier, ctx.root)
+    _sv = ctx.project.need_class('petl.transform.sorts:SortView')
+    _nc = ctx.project.need_fn('petl.transform.sorts:SortView._iternocache')
+    ctx.attempt(_c05.r52, ctx, _sub5, _sv, _nc)
+    for _o in _sub5.obligations:
+        rep.add('R18.9', (_o.module, _o.qualname), _o.construct, _o.status, _o.message, _o.lineno, _o.detail)
+    rep.rule('R18.9', 'a pass served from the chunk files merges them with the key function and direction they were sorted with (C05 R5.2 imported): the cached pass yields the same sorted sequence as the pass that wrote the files')
     rep.rule('R18.8', 'sort caches: an iterator served from the chunk files works on the header, file list and key function '
                       'it was given when it was created (snapshot discipline of C01 R1.3 for SortView): clearing or refilling '
                       'the view\'s caches cannot change what a pending iterator yields')
@@ -361,8 +371,16 @@ def _chunk_class(ctx, rep, ci):
                     if isinstance(p, ast.Call) and isinstance(p.func, ast.Attribute) and p.func.attr == 'append' \
                             and isinstance(p.func.value, ast.Name) and n in p.args:
                         lists.add(p.func.value.id)
-                    elif isinstance(p, ast.Call) and norm(p.func) in ('debug', 'log', 'logger.debug', 'str', 'repr'):
+                    elif isinstance(p, ast.Call) and norm(p.func) in ('str', 'repr'):
                         pass
+                    elif isinstance(p, ast.BinOp) and isinstance(p.op, ast.Mod) and p.right is n:
+                        pass        # formatted into a string at once: no reference is kept
+                    elif isinstance(p, ast.Call) and norm(p.func).split('.')[-1] in ('debug', 'info', 'warning', 'log') and n in p.args:
+                        bad = True
+                        rep.violated('R18.3', fn, norm(p)[:70],
+                                     'the temp-file owner `%s` is handed to the logging call as a lazy argument: the LogRecord keeps '
+                                     'the reference (handlers that buffer records -- MemoryHandler, test capture -- keep the file '
+                                     'alive after view and iterators are gone); format it into the message instead' % ov, n)
                     else:
                         bad = True
                         rep.violated('R18.3', fn, norm(pm.get(id(n))) if pm.get(id(n)) is not None else ov,
@@ -392,7 +410,16 @@ def _chunk_class(ctx, rep, ci):
                             continue
                         if isinstance(p, (ast.For,)) and p.iter is n:
                             continue
-                        if isinstance(p, ast.Call) and norm(p.func) in ('len', 'debug', 'bool'):
+                        if isinstance(p, ast.Call) and norm(p.func) in ('len', 'bool'):
+                            continue
+                        if isinstance(p, ast.BinOp) and isinstance(p.op, ast.Mod) and p.right is n:
+                            continue      # formatted into a string at once
+                        if isinstance(p, ast.Call) and norm(p.func).split('.')[-1] in ('debug', 'info', 'warning', 'log') and n in p.args:
+                            bad = True
+                            rep.violated('R18.3', fn, norm(p)[:70],
+                                         'the list of temp-file owners `%s` is handed to the logging call as a lazy argument: the '
+                                         'LogRecord keeps the reference, and a handler that buffers records keeps every chunk file '
+                                         'alive after view and iterators are gone' % lv, n)
                             continue
                         if isinstance(p, (ast.While, ast.If, ast.UnaryOp)):
                             continue
